@@ -27,6 +27,7 @@ import (
 	"hash/fnv"
 	"math/rand"
 	"os"
+	"runtime"
 	"runtime/debug"
 	"sync"
 	"sync/atomic"
@@ -220,6 +221,22 @@ type leakExec struct {
 	rvDelay   int32
 	rvMet     uint64
 
+	// late data (single mode): the event loop is held at vpPollGotStream with the data element of a stream in its hands
+	// while the harness closes that stream's receiving end
+	lateArmed   int32
+	lateTarget  atomic.Value // *Stream
+	lateHolding int32
+	lateGate    chan struct{}
+	lateHeld    uint64
+
+	// parked close (single mode): the closer is parked in Stream.close() between the state load and the CAS until the
+	// peer's close notification has half-closed the same stream
+	parkArmed  int32
+	parkTarget atomic.Value // *Stream
+	parkParked int32
+	parkHalf   int32
+	parkDone   uint64
+
 	mu       sync.Mutex
 	problems []string
 
@@ -251,7 +268,8 @@ type leakWorker struct {
 
 var leakHostileKinds = []string{"close with unread data", "flush on closed or half-closed end", "flush through the socket fallback",
 	"queue-full event", "flush failed (error exit)", "write on closed end", "pool put-back", "pool reuse", "pool put-back refused (closed instead)",
-	"data for a stream the peer had closed (zombie)", "simultaneous close of both ends", "hoard", "read on closed end", "close of half-closed end", "allocation failure (heap slice)"}
+	"data for a stream the peer had closed (zombie)", "simultaneous close of both ends",
+	"data handed to a stream closed meanwhile (loop held at PollGotStream)", "hoard", "read on closed end", "close of half-closed end", "allocation failure (heap slice)"}
 
 func (x *leakExec) hit(w *leakWorker, kind string) {
 	if p, ok := x.hostile[kind]; ok {
@@ -337,6 +355,61 @@ func (x *leakExec) closeEnterHook(obj interface{}, n int64) {
 	}
 	x.rvWait()
 	spinFor(int(atomic.LoadInt32(&x.rvDelay)))
+}
+
+func (x *leakExec) gotStreamHook(obj interface{}, n int64) {
+	if atomic.LoadInt32(&x.lateArmed) == 0 || n != int64(streamOpened) {
+		return
+	}
+	st, _ := obj.(*Stream)
+	t, _ := x.lateTarget.Load().(*Stream)
+	if st == nil || st != t {
+		return
+	}
+	x.stallMu.Lock()
+	g := x.lateGate
+	x.stallMu.Unlock()
+	if g == nil {
+		return
+	}
+	atomic.StoreInt32(&x.lateHolding, 1)
+	select {
+	case <-g:
+	case <-time.After(3 * time.Second): // safety net only
+	}
+}
+
+func (x *leakExec) closeLoadedHook(obj interface{}, n int64) {
+	if atomic.LoadInt32(&x.parkArmed) == 0 || n != int64(streamOpened) {
+		return
+	}
+	st, _ := obj.(*Stream)
+	t, _ := x.parkTarget.Load().(*Stream)
+	if st == nil || st != t {
+		return
+	}
+	atomic.StoreInt32(&x.parkParked, 1)
+	t0 := time.Now()
+	for i := 0; atomic.LoadInt32(&x.parkHalf) == 0; i++ {
+		if i&255 == 255 {
+			if time.Since(t0) > 2*time.Second {
+				return // safety net only
+			}
+			runtime.Gosched()
+		}
+	}
+	atomic.AddUint64(&x.parkDone, 1)
+}
+
+func (x *leakExec) halfClosedHook(obj interface{}, n int64) {
+	if atomic.LoadInt32(&x.parkArmed) == 0 {
+		return
+	}
+	st, _ := obj.(*Stream)
+	t, _ := x.parkTarget.Load().(*Stream)
+	if st != nil && st == t {
+		atomic.StoreInt32(&x.parkHalf, 1)
+	}
 }
 
 func (x *leakExec) pollHook(obj interface{}, n int64) {
@@ -814,6 +887,61 @@ func (w *leakWorker) raceCloseFlush() {
 	w.hist[len(w.hist)-1].Note += " (right after the peer's close)"
 }
 
+// lateDataRace (single mode): data is flushed to an open stream; the event loop, already holding that stream for the data
+// element (vpPollGotStream), is held while the harness closes the receiving end; then the loop goes on and hands the
+// data to a stream that is closed and no longer in the session's table.
+func (w *leakWorker) lateDataRace() {
+	x := w.x
+	if len(w.hoard) > 0 {
+		return
+	}
+	var c []*leakSlot
+	for _, sl := range w.slots {
+		if sl.ends[0] != nil && sl.ends[1] != nil && !sl.closed[0] && !sl.closed[1] && !sl.pooled &&
+			sl.ends[0].IsOpen() && sl.ends[1].IsOpen() {
+			c = append(c, sl)
+		}
+	}
+	if len(c) == 0 {
+		return
+	}
+	sl := c[w.rng.Intn(len(c))]
+	a := w.rng.Intn(2)
+	b := 1 - a
+	if sl.ends[a].inFallbackState {
+		return
+	}
+	if !w.settle() {
+		return
+	}
+	if sl.ends[a].sendBuf.Len() == 0 || w.rng.Intn(2) == 0 {
+		w.opWrite(sl, a, w.pickSize())
+	}
+	if !sl.ends[a].sendBuf.isFromShareMemory() || !sl.ends[a].IsOpen() || !sl.ends[b].IsOpen() {
+		return
+	}
+	x.stallMu.Lock()
+	x.lateGate = make(chan struct{})
+	gate := x.lateGate
+	x.stallMu.Unlock()
+	x.lateTarget.Store(sl.ends[b])
+	atomic.StoreInt32(&x.lateHolding, 0)
+	atomic.StoreInt32(&x.lateArmed, 1)
+	w.opFlush(sl, a, 0)
+	held := false
+	if w.hist[len(w.hist)-1].Res == "ok" {
+		held = waitUntil(5*time.Second, func() bool { return atomic.LoadInt32(&x.lateHolding) != 0 })
+	}
+	w.opClose(sl, b)
+	atomic.StoreInt32(&x.lateArmed, 0)
+	close(gate)
+	if held {
+		atomic.AddUint64(&x.lateHeld, 1)
+		w.hist[len(w.hist)-1].Note += " (while the event loop held this stream's data element at PollGotStream)"
+		x.hit(w, "data handed to a stream closed meanwhile (loop held at PollGotStream)")
+	}
+}
+
 // simultaneousCloseBurst opens a batch of fresh streams, sends a little data each way, and then closes the client ends and
 // the server ends at the same time from two goroutines (each Stream object is still used by one goroutine only): the
 // peer's close notification races with the local Close of the same stream.
@@ -894,6 +1022,30 @@ func (w *leakWorker) simultaneousCloseBurst() {
 				a = 1 - first
 			}
 			b := 1 - a
+			if w.rng.Intn(2) == 0 {
+				// deterministic variant: b's closer is parked between its state load (open) and its CAS until a's close
+				// notification has half-closed b
+				x.parkTarget.Store(sl.ends[b])
+				atomic.StoreInt32(&x.parkParked, 0)
+				atomic.StoreInt32(&x.parkHalf, 0)
+				atomic.StoreInt32(&x.parkArmed, 1)
+				hd := make(chan struct{})
+				go func(st *Stream) {
+					defer close(hd)
+					defer func() {
+						if r := recover(); r != nil {
+							x.problem("panic in Close (parked helper): %v", r)
+						}
+					}()
+					st.Close()
+				}(sl.ends[b])
+				waitUntil(5*time.Second, func() bool { return atomic.LoadInt32(&x.parkParked) != 0 })
+				sl.ends[a].Close()
+				<-hd
+				atomic.StoreInt32(&x.parkArmed, 0)
+				sl.closed[0], sl.closed[1] = true, true
+				continue
+			}
 			x.rvTarget.Store(sl.ends[b])
 			x.rvSess.Store(sl.ends[b].session)
 			atomic.StoreInt32(&x.rvDelay, int32(w.rng.Intn(64)))
@@ -915,7 +1067,7 @@ func (w *leakWorker) simultaneousCloseBurst() {
 			atomic.StoreInt32(&x.rvArmed, 0)
 			sl.closed[0], sl.closed[1] = true, true
 		}
-		w.rec("simultaneous-close", nil, 0, len(batch), "rendezvous at PollPopped/EventDispatch and StreamCloseEnter, one pair at a time")
+		w.rec("simultaneous-close", nil, 0, len(batch), "one pair at a time: closer parked at StreamCloseLoaded until HalfClosed, or rendezvous at PollPopped/EventDispatch and StreamCloseEnter")
 		x.hit(w, "simultaneous close of both ends")
 		atomic.AddUint64(x.hostile["simultaneous close of both ends"], uint64(len(batch)-1))
 		return
@@ -1041,11 +1193,19 @@ func (w *leakWorker) step() {
 			w.queueFullEpisode()
 		}
 	case r < 98:
-		w.raceCloseFlush()
+		if w.single && w.rng.Intn(2) == 0 {
+			w.lateDataRace()
+		} else {
+			w.raceCloseFlush()
+		}
 	case r < 99:
 		w.simultaneousCloseBurst()
 	default:
-		w.claimAccepted()
+		if w.single {
+			w.lateDataRace()
+		} else {
+			w.claimAccepted()
+		}
 	}
 }
 
@@ -1432,6 +1592,9 @@ func runLeakCase(c *checkCtx, cs leakCase) (res leakResult) {
 	k.on(vpPollPopped, x.pollHook)
 	k.on(vpEventDispatch, x.dispatchHook)
 	k.on(vpStreamCloseEnter, x.closeEnterHook)
+	k.on(vpPollGotStream, x.gotStreamHook)
+	k.on(vpStreamCloseLoaded, x.closeLoadedHook)
+	k.on(vpHalfClosed, x.halfClosedHook)
 	k.install()
 	defer func() {
 		x.stallEnd()
@@ -1700,6 +1863,8 @@ func checkLeak(c *checkCtx) {
 		c.count("late zombies closed at checkpoints", int64(res.zombies))
 		c.count("event loop held at handlePolling (hook hits)", int64(x.stallHits))
 		c.count("close/close rendezvous met (loop and closer released together)", int64(x.rvMet/2))
+		c.count("closer parked at StreamCloseLoaded until HalfClosed", int64(x.parkDone))
+		c.count("event loop held at PollGotStream while the receiving end was closed", int64(x.lateHeld))
 		c.count("ABA suspects", int64(res.suspects))
 		for kind, v := range x.hostile {
 			c.count("hostile: "+kind, int64(atomic.LoadUint64(v)))
